@@ -513,7 +513,20 @@ func propOrdinal(p string) uint64 {
 	return 0
 }
 
+// tierName is set by the worker/coordinator; the thorough tier explores longer and busier histories.
+var tierName = "quick"
+
 func profileFor(prop string) *Profile {
+	p := profileForTier(prop)
+	if tierName == "thorough" {
+		p.MaxBlocks = p.MaxBlocks * 3 / 2
+		p.MaxOps += 2
+		p.Name = prop + "/thorough"
+	}
+	return p
+}
+
+func profileForTier(prop string) *Profile {
 	p := baseProfile()
 	p.Name = prop
 	switch prop {
